@@ -1135,6 +1135,20 @@ End Binom.
 
 End P.
 
+(* the component hypothesis of the block theorems holds for every default Cartesian component list *)
+Lemma default_comps_sum l c : In c (default_comps l) -> csum3 c = l.
+Proof.
+  unfold default_comps. intros H. apply in_flat_map in H. destruct H as [xx [Hxx H]].
+  apply in_seq in Hxx. apply in_map_iff in H. destruct H as [yy [<- Hyy]]. apply in_seq in Hyy.
+  unfold csum3. cbn [fst snd]. lia.
+Qed.
+Lemma default_shell_comp_ok {F} (s : shell F) i :
+  s_comps s = [] -> i < length (comps_of s) -> (csum3 (nth i (comps_of s) (0, 0, 0)%nat) <= s_l s)%nat.
+Proof.
+  intros E Hi. unfold comps_of in *. rewrite E in *.
+  rewrite (default_comps_sum (s_l s)); [lia|]. now apply nth_In.
+Qed.
+
 (* ------------------------------------------------------------------ *)
 (* the hypotheses hold at the executable instance                      *)
 (* ------------------------------------------------------------------ *)
